@@ -238,7 +238,7 @@ func drawCase(t *rapid.T) Case {
 				if st == 'T' && tt {
 					okKind = false
 				}
-				if okKind && xr == rr && xc == rc && (!tt || canT(st, rk)) {
+				if okKind && xr == rr && xc == rc && (!tt || op.canT(s, rk)) {
 					arg = Arg{Same: true, T: tt, W: recv}
 					done = true
 					break
@@ -251,7 +251,7 @@ func drawCase(t *rapid.T) Case {
 			if st == 'M' && rapid.IntRange(0, 9).Draw(t, "akD") < 5 {
 				ak = "D"
 			}
-			tt := canT(st, ak) && rapid.IntRange(0, 2).Draw(t, "T") == 0
+			tt := op.canT(s, ak) && rapid.IntRange(0, 2).Draw(t, "T") == 0
 			if op.Recv == 'T' && st == 'T' {
 				// the effective triangle kind must equal the receiver's
 				ak = rk
